@@ -5,7 +5,7 @@ from="${1:-100}"; to="${2:-120}"
 for seed in $(seq "$from" "$to"); do
   for id in $(python3 -c "import json;print(' '.join(c['property_id'] for c in json.load(open('MANIFEST.json'))['checks']))"); do
     out=$(VERIF_SEED=$seed TWV_NO_EVIDENCE=1 ./check "$id" quick 2>&1); rc=$?
-    if [ $rc -ne 0 ]; then echo "seed=$seed $id rc=$rc"; echo "$out" | grep -E '^(---|VIOLATION|HARNESS)' | head -4; cp -r replays "replays-soak-$seed" 2>/dev/null; fi
+    if [ $rc -ne 0 ]; then echo "seed=$seed $id rc=$rc"; echo "$out" | grep -E '^(---|VIOLATION|HARNESS)' | head -4;  fi
   done
   echo "seed $seed done"
 done
